@@ -158,3 +158,40 @@ def check(pid, tier, replay=None):
         "a schedule the real code cannot follow is reported as unreproducible (no verdict)",
         "fake in-memory MongoDB; real rating/account servers",
     ])
+
+
+def create_phase(pid, tier):
+    """Concurrent half of C10: interleavings of creates (same subscriber and consumer, different subscribers) replayed
+    through the hooks and run ungated; references must be unique and keep designating their session."""
+    def phase(sc, v):
+        rnd = random.Random(core.seed())
+        names = ["cre_cre_same", "cre_cre_diff"] + (["cre3_same", "upd_rel_cre"] if tier == "thorough" else [])
+        cases = []
+        states = 0
+        for name in names:
+            mix, ex = MIXES[name]
+            consts = dict(Mix="<<" + ", ".join(tla_req(r) for r in mix) + ">>",
+                          Existing="{" + ", ".join('[u |-> "%s", s |-> "%s"]' % (e["u"], e["s"]) for e in ex) + "}",
+                          DEV_FindThenStore=DEV["DEV_FindThenStore"], DEV_RechargeUnlocked=DEV["DEV_RechargeUnlocked"],
+                          DEV_SeqReadUnlocked=DEV["DEV_SeqReadUnlocked"], EmitOneIn=1)
+            mc, hists, cex = pipe.explore(sc, "ChfConc", consts, ["InvC09"], tier, notes=v.notes, workers=2,
+                                          view="ViewAll" if len(mix) <= 2 else "View")
+            states += mc["distinct"]
+            scheds = [h[0]["schedule"] for h in cex + hists]
+            rnd.shuffle(scheds)
+            for i, s in enumerate(scheds[: (10 if tier == "quick" else 200)]):
+                cases.append(dict(id="%s-%s-g%d" % (pid, name, i), mix=mix, existing=ex, schedule=s, gated=True, procs=4, repeat=1))
+            cases.append(dict(id="%s-%s-free" % (pid, name), mix=mix * (3 if tier == "quick" else 6), existing=ex, schedule=[], gated=False,
+                              procs=8, repeat=10 if tier == "quick" else 100))
+        vfh = sc.build()
+        trace, n = pipe.run_harness(sc, vfh, "conc", cases, chunk=4, nworkers=10, timeout=1800)
+        res = pipe.judge(sc, "ChfConcTrace", {}, trace, n)
+        bymap = {c["id"]: c for c in cases}
+        rename = {"refs_unique": "ref_unique_concurrent", "acked_session_usable": "ref_designates_concurrent",
+                  "subscriber_context_unique": "ref_designates_concurrent", "all_requests_return": "concurrent_creates_return"}
+        for x in sorted(res["viol"], key=lambda x: (str(x["trace"]), x["step"])):
+            if x["clause"] in rename:
+                y = dict(x, prop=pid, clause=rename[x["clause"]])
+                v.add(y, dict(family="conc", property="C09", behaviour=bymap.get(x["trace"]), violation=y, trace=pipe.trace_lines(trace, x["trace"])[:2]))
+        return dict(concurrent_create_runs=n, concurrent_model_states=states)
+    return phase
